@@ -126,7 +126,7 @@ PROPS["C07"] = dict(streams=[EVIDENCE], rule=PROV_RULE + "; evidence stream: REA
     assumptions=PROV_ASSUME + ["A-CRYPTO: an ed25519 signature verifies under identity k's public key iff it was produced with k's private key over exactly the verified bytes (the harness signs real votes; the model records signer, chain id and intactness)",
                                "x/staking's SlashUnbondingDelegation / SlashRedelegation amount rule (entries not matured or on hold, InitialBalance x factor, truncated) is scripted after the SDK source",
                                "light-client attacks: the consumer's client store (client state, trusted consensus state) is written by the harness as core IBC would hold it; both headers use one validator set and one trusted set per submission; header timestamps are one minute before the block time; revision numbers other than the chain id's own are not exercised"],
-    fields=r"^dvote\.")
+    fields=r"^(dvote|misb)\.")
 
 # C18: the provider streams again, every BeginBlock / EndBlock first executed 3 times on throw-away
 # branches of the same state and compared byte for byte (store contents, returned updates, packet
